@@ -174,9 +174,15 @@ def _resolve(f, defs, init_node, what):
 
 def _resolve_upper(f, defs, cond):
     c = cond.strip()
+    sub = {d: defs.single_def(d) for d in defs.decl}
     if c.k == "BinaryOperator" and c.op == "<=":
-        sub = {d: defs.single_def(d) for d in defs.decl}
         return key(c.c[1].strip(), False, sub)
+    if c.k == "BinaryOperator" and c.op == "<":
+        # v < B + 1  is the inclusive bound B
+        o = c.c[1].strip()
+        if o.k == "BinaryOperator" and o.op == "+" and key(o.c[1].strip()) == "1":
+            return key(o.c[0].strip(), False, sub)
+        return "(- %s 1)" % key(o, False, sub)
     return None
 
 
